@@ -24,4 +24,5 @@ let table : (string * (Model.sx -> Model.sx)) list = [
   "validate", Model.check_validate;
   "evmcore", Model.check_evmcore;
   "evmworld", Model.check_evmworld;
+  "admithist", Model.check_admithist;
 ]
